@@ -15,6 +15,9 @@ macro_rules! with_prop {
             "C03" => { let $p = &props::c03::C03; $body }
             "C04" => { let $p = &props::c04::C04; $body }
             "C05" => { let $p = &props::c05::C05; $body }
+            "C06" => { let $p = &props::c06::C06; $body }
+            "C07" => { let $p = &props::c07::C07; $body }
+            "C08" => { let $p = &props::c08::C08; $body }
             _ => { eprintln!("unknown property {}", $id); std::process::exit(2); }
         }
     };
